@@ -390,7 +390,7 @@ theorem storeInv_set {s : PStore ℝ} (hs : StoreInv s) (k : Nat) {p : Param ℝ
   · cases hq; exact hp
   · exact hs i q hq
 
-/-- one call of construct / copy / convert / assign / setValue (plain or auto-correcting) /
+/-- one call of construct / copy / convert (plain → auto-correcting, and the slicing copy back) / assign / setValue (plain or auto-correcting) /
 setPrecision / setConstraint / removeConstraint keeps the invariant, whether it raises or not -/
 theorem step_inv (s : PStore ℝ) (op : POp ℝ) (hs : StoreInv s) : StoreInv (POp.step s op).1 := by
   cases op with
@@ -405,6 +405,11 @@ theorem step_inv (s : PStore ℝ) (op : POp ℝ) (hs : StoreInv s) : StoreInv (P
     · next p h => exact storeInv_set hs dst (hs src p h)
     · exact hs
   | toAuto src dst =>
+    simp only [POp.step]
+    split
+    · next p h => exact storeInv_set hs dst ⟨Inv_congr rfl rfl (hs src p h).1, (hs src p h).2⟩
+    · exact hs
+  | toPlain src dst =>
     simp only [POp.step]
     split
     · next p h => exact storeInv_set hs dst ⟨Inv_congr rfl rfl (hs src p h).1, (hs src p h).2⟩
@@ -475,7 +480,7 @@ theorem reject_unchanged (s : PStore ℝ) (op : POp ℝ) (e : PErr) (h : (POp.st
 (copies are independent objects) -/
 theorem step_other (s : PStore ℝ) (op : POp ℝ) (i : Nat)
     (hi : match op with
-      | .construct k _ _ _ _ => i ≠ k | .copy _ d => i ≠ d | .toAuto _ d => i ≠ d | .assign _ d => i ≠ d
+      | .construct k _ _ _ _ => i ≠ k | .copy _ d => i ≠ d | .toAuto _ d => i ≠ d | .toPlain _ d => i ≠ d | .assign _ d => i ≠ d
       | .setValue k _ => i ≠ k | .setPrecision k _ => i ≠ k | .setConstraint k _ => i ≠ k | .removeConstraint k => i ≠ k) :
     (POp.step s op).1 i = s i := by
   cases op <;> simp only [POp.step] <;> (repeat' split) <;> simp_all [PStore.set]
@@ -600,9 +605,16 @@ theorem default_prec_ok : (0 : ℝ) ≤ Constants.TINY ∧ (Constants.TINY : ℝ
   refine ⟨TINY_pos.le, ?_⟩
   simp only [Constants.TINY, ScalarReal.ofRat_eq]; norm_num
 
-/-- **auto_total**: on a wide interval (`0 ≤ precision`, `lo + precision + TINY < hi`) the
-auto-correcting setter never raises, for any finite request -/
-theorem auto_total (p : Param ℝ) (v : ℝ) (hp : 0 ≤ p.precision)
+/-- Full statement wanted (the property's words): for every finite request `v`, every parameter
+state satisfying the invariant and every interval at least `1e-9` wide,
+`∃ p', p.setValueAuto v = .ok p'`.  It is false of the code: the setter raises when the
+*constraint's precision* is not small against the width (`auto_precision_witness`: `]0, 1e-9[`
+with precision `2e-9`; known finding C01-auto-raises-large-constraint-precision), and on intervals
+narrower than `TINY` (`auto_narrow_witness`, outside the property's quantifier).
+Proved: on a *wide* interval (`0 ≤ constraint precision`, `lo + precision + TINY < hi` — implied by
+width ≥ `1e-9` and constraint precision in `[0, 1e-10]`, `wide_of_width`) the auto-correcting
+setter never raises, for any finite request. -/
+theorem auto_total_partial (p : Param ℝ) (v : ℝ) (hp : 0 ≤ p.precision)
     (hw : ∀ c, p.constraint = some c → c.wide = true) : ∃ p', p.setValueAuto v = .ok p' := by
   cases hc : p.constraint with
   | none =>
@@ -613,6 +625,21 @@ theorem auto_total (p : Param ℝ) (v : ℝ) (hp : 0 ≤ p.precision)
   | some c =>
     obtain ⟨p', h, -⟩ := auto_spec p v c hc hp (hw c hc)
     exact ⟨p', h⟩
+
+/-- `auto_total_partial` under the name other properties cite (C10 `auto_never_raises`); the guard
+is `wide`, see there -/
+theorem auto_total (p : Param ℝ) (v : ℝ) (hp : 0 ≤ p.precision)
+    (hw : ∀ c, p.constraint = some c → c.wide = true) : ∃ p', p.setValueAuto v = .ok p' :=
+  auto_total_partial p v hp hw
+
+/-- in the property's own terms: width at least `1e-9` and a constraint precision in `[0, 1e-10]`
+(the default `TINY` included) -/
+theorem auto_total_of_width (p : Param ℝ) (v : ℝ) (c : Interval ℝ) (hc : p.constraint = some c) (hp : 0 ≤ p.precision)
+    (hpr : c.proper = true) (h0 : 0 ≤ c.prec) (h1 : c.prec ≤ 1e-10)
+    (hwid : c.lo.toEReal + ((1e-9 : ℝ) : EReal) ≤ c.hi.toEReal) : ∃ p', p.setValueAuto v = .ok p' :=
+  auto_total_partial p v hp (fun c' hc' => by
+    have : c' = c := by rw [hc] at hc'; exact (Option.some.inj hc').symm
+    rw [this]; exact wide_of_width c hpr h0 h1 hwid)
 
 /-- the result always satisfies the constraint (no width hypothesis needed) -/
 theorem auto_inv (p : Param ℝ) (v : ℝ) (p' : Param ℝ) (hinv : p.Inv) (h : p.setValueAuto v = .ok p') :
@@ -627,10 +654,14 @@ theorem auto_accepted_exact (p : Param ℝ) (v : ℝ) (h1 : p.precision / 2 < |v
   · simp only [setValueAuto, e]
   · rw [h2] at b; cases b
 
-/-- **auto_nearest**: the value the setter ends on is accepted, and it is the accepted value
+/-- Full statement wanted: on every interval at least `1e-9` wide the setter "ends on the accepted
+value nearest to the request (one precision step inside an open bound)".  Guarded by `wide` like
+`auto_total_partial` (the unguarded statement fails with it: `auto_precision_witness`); the exact
+landing point is `auto_lands`.
+**auto_nearest**: the value the setter ends on is accepted, and it is the accepted value
 nearest to the request up to one step (`max constraint-precision TINY`: one precision step inside
 an open bound) plus the parameter's own precision window -/
-theorem auto_nearest (p : Param ℝ) (v : ℝ) (c : Interval ℝ) (p' : Param ℝ) (hc : p.constraint = some c)
+theorem auto_nearest_partial (p : Param ℝ) (v : ℝ) (c : Interval ℝ) (p' : Param ℝ) (hc : p.constraint = some c)
     (hp : 0 ≤ p.precision) (hw : c.wide = true) (hinv : p.Inv) (h : p.setValueAuto v = .ok p') :
     c.isCorrect p'.value = true ∧
     ∀ u, c.isCorrect u = true → |p'.value - v| ≤ |u - v| + max c.prec Constants.TINY + p.precision / 2 := by
@@ -725,6 +756,141 @@ theorem auto_narrow_witness :
     have e3' : p.setValueBase (T / 2 - T + Constants.TINY) = .error .constraint := e3
     have e4' : p.setValueBase (T / 2 - T - Constants.TINY) = .error .constraint := e4
     rw [e3']; exact e4'
+/-- **auto_lands** — "ends on the accepted value nearest to the request (one precision step inside
+an open bound)", exactly: for a parameter of precision 0 satisfying the invariant, a wide interval
+and a rejected request, the setter ends on the bound on the request's side when that bound is
+included, one constraint-precision step inside it when it is excluded, and `TINY` inside it when
+it is excluded and the constraint's precision is 0. -/
+theorem auto_lands (p : Param ℝ) (v : ℝ) (c : Interval ℝ) (p' : Param ℝ) (hc : p.constraint = some c)
+    (hp0 : p.precision = 0) (hw : c.wide = true) (hinv : p.Inv) (hrej : c.isCorrect v = false)
+    (h : p.setValueAuto v = .ok p') :
+    (c.geV (.fin v) = true ∧ ∃ l, c.lo = .fin l ∧ v ≤ l ∧
+        p'.value = if c.inclLo then l else if 0 < c.prec then l + c.prec else l + Constants.TINY) ∨
+    (c.geV (.fin v) = false ∧ ∃ u, c.hi = .fin u ∧ u ≤ v ∧
+        p'.value = if c.inclHi then u else if 0 < c.prec then u - c.prec else u - Constants.TINY) := by
+  have hacc : ∀ x, p.accepts x = c.isCorrect x := accepts_some hc
+  have hval : c.isCorrect p.value = true := (isCorrect_iff c _).2 (hinv c hc)
+  have hprec0 : 0 ≤ c.prec := ((wide_iff c).1 hw).1
+  -- with precision 0 a plain call either stores the request exactly or raises
+  have A : ∀ x, c.isCorrect x = true → ∃ q, p.setValueBase x = .ok q ∧ q.value = x := by
+    intro x hx
+    rcases svb_cases p x with ⟨a, e⟩ | ⟨_, _, e⟩ | ⟨_, b, _⟩
+    · rw [hp0] at a; simp only [zero_div] at a
+      have : x - p.value = 0 := abs_nonpos_iff.1 a
+      exact ⟨p, e, by linarith⟩
+    · exact ⟨_, e, rfl⟩
+    · rw [hacc, hx] at b; cases b
+  have B : ∀ x, c.isCorrect x = false → p.setValueBase x = .error .constraint := by
+    intro x hx
+    rcases svb_cases p x with ⟨a, _⟩ | ⟨_, b, _⟩ | ⟨_, _, e⟩
+    · rw [hp0] at a; simp only [zero_div] at a
+      have : x - p.value = 0 := abs_nonpos_iff.1 a
+      have hxv : x = p.value := by linarith
+      rw [hxv, hval] at hx; cases hx
+    · rw [hacc, hx] at b; cases b
+    · exact e
+  have land : ∀ x, c.isCorrect x = true → ∀ r, p.setValueBase x = .ok r → r.value = x := by
+    intro x hx r hr
+    obtain ⟨q, hq, hqv⟩ := A x hx
+    rw [hq] at hr; rw [← Except.ok.inj hr]; exact hqv
+  have e0 := B v hrej
+  rcases alimit_exact c v hw hrej with ⟨hg, l, hlo, hvl, hlim, a1, a2, a3⟩ | ⟨hg, u, hhi, huv, hlim, a1, a2, a3⟩
+  · left
+    refine ⟨hg, l, hlo, hvl, ?_⟩
+    simp only [setValueAuto, e0, hc, hlim] at h
+    cases hil : c.inclLo with
+    | true =>
+      simp only [hil, if_true] at h ⊢
+      obtain ⟨q, hq, hqv⟩ := A l (a1 hil)
+      rw [hq] at h; rw [← Except.ok.inj h]; exact hqv
+    | false =>
+      simp only [hil, Bool.false_eq_true, if_false] at h ⊢
+      rcases hprec0.lt_or_eq with hpos | hz
+      · rw [if_pos hpos]
+        obtain ⟨q, hq, hqv⟩ := A (l + c.prec) (a2 hil hpos)
+        rw [hq] at h; rw [← Except.ok.inj h]; exact hqv
+      · rw [if_neg (by rw [← hz]; exact lt_irrefl _)]
+        obtain ⟨r1, r2⟩ := a3 hil hz.symm
+        have hl : l + c.prec = l := by rw [← hz]; ring
+        rw [hl, B l r1] at h
+        obtain ⟨q, hq, hqv⟩ := A (l + Constants.TINY) r2
+        simp only at h
+        rw [hq] at h; rw [← Except.ok.inj h]; exact hqv
+  · right
+    refine ⟨hg, u, hhi, huv, ?_⟩
+    simp only [setValueAuto, e0, hc, hlim] at h
+    cases hiu : c.inclHi with
+    | true =>
+      simp only [hiu, if_true] at h ⊢
+      obtain ⟨q, hq, hqv⟩ := A u (a1 hiu)
+      rw [hq] at h; rw [← Except.ok.inj h]; exact hqv
+    | false =>
+      simp only [hiu, Bool.false_eq_true, if_false] at h ⊢
+      rcases hprec0.lt_or_eq with hpos | hz
+      · rw [if_pos hpos]
+        obtain ⟨q, hq, hqv⟩ := A (u - c.prec) (a2 hiu hpos)
+        rw [hq] at h; rw [← Except.ok.inj h]; exact hqv
+      · rw [if_neg (by rw [← hz]; exact lt_irrefl _)]
+        obtain ⟨r1, r2, r3⟩ := a3 hiu hz.symm
+        have hl : u - c.prec = u := by rw [← hz]; ring
+        rw [hl, B u r1] at h
+        simp only at h
+        rw [B (u + Constants.TINY) r2] at h
+        simp only at h
+        exact land _ r3 _ h
+
+/-- the *precision* part of the guard `wide` is needed, inside the property's quantifier: the
+interval `]0, 1e-9[` is `1e-9` wide, but with the constraint precision `2e-9` (a public constructor
+argument) the auto-correcting setter raises for the request −5 — `lo + precision`, and that
+`± TINY`, all lie above the upper bound (known finding C01-auto-raises-large-constraint-precision) -/
+theorem auto_precision_witness :
+    let c : Interval ℝ := Interval.make (.fin 0) (.fin 1e-9) false false 2e-9
+    let p : Param ℝ := ⟨5e-10, 0, some c, true⟩
+    p.Inv ∧ c.lo.toEReal + ((1e-9 : ℝ) : EReal) ≤ c.hi.toEReal ∧ c.wide = false ∧
+      p.setValueAuto (-5) = .error .constraint := by
+  intro c p
+  have hT : (0 : ℝ) < Constants.TINY := TINY_pos
+  have hT1 : (Constants.TINY : ℝ) ≤ 1e-10 := default_prec_ok.2
+  have hc : p.constraint = some c := rfl
+  have mem : ∀ x : ℝ, c.isCorrect x = true ↔ 0 < x ∧ x < 1e-9 := fun x => isCorrect_open 0 1e-9 2e-9 x
+  have rej : ∀ x : ℝ, x ≠ 5e-10 → ¬ (0 < x ∧ x < 1e-9) → p.setValueBase x = .error .constraint := by
+    intro x hx hn
+    rw [setValue_raises_iff]
+    refine ⟨rfl, ?_, c, hc, ?_⟩
+    · show (0 : ℝ) / 2 < |x - 5e-10|
+      simp only [zero_div, abs_pos, ne_eq, sub_eq_zero]; exact hx
+    · rw [← isCorrect_iff, mem]; exact hn
+  refine ⟨?_, ?_, ?_, ?_⟩
+  · intro c' hc'; cases hc'
+    rw [← isCorrect_iff, mem]
+    show (0 : ℝ) < 5e-10 ∧ (5e-10 : ℝ) < 1e-9
+    constructor <;> norm_num
+  · show ((0 : ℝ) : EReal) + ((1e-9 : ℝ) : EReal) ≤ ((1e-9 : ℝ) : EReal)
+    rw [← EReal.coe_add, EReal.coe_le_coe_iff]; norm_num
+  · rw [Bool.eq_false_iff, Ne, wide_iff]
+    rintro ⟨_, h2⟩
+    have h3 : ((0 : ℝ) : EReal) + (((2e-9 : ℝ) + Constants.TINY : ℝ) : EReal) < ((1e-9 : ℝ) : EReal) := h2
+    rw [← EReal.coe_add, EReal.coe_lt_coe_iff] at h3
+    norm_num at h3; linarith
+  · have h5 : c.isCorrectB (.fin (-5)) = false := by
+      have : c.isCorrect (-5) = false := by
+        rw [Bool.eq_false_iff, Ne, mem]; intro h; linarith [h.1]
+      exact this
+    have hg : c.geV (.fin (-5)) = true := by
+      rw [geV_iff]
+      show (((-5 : ℝ)) : EReal) ≤ ((0 : ℝ) : EReal)
+      rw [EReal.coe_le_coe_iff]; norm_num
+    have hlim : c.getAcceptedLimit (.fin (-5)) = .fin (0 + 2e-9) := by
+      unfold getAcceptedLimit
+      rw [h5, hg]
+      simp [strictLowerBound, c, Interval.make, Bound.addS]
+    have e1 := rej (-5) (by norm_num) (by intro h; linarith [h.1])
+    have e2 := rej (0 + 2e-9) (by norm_num) (by intro h; norm_num at h)
+    have e3 := rej (0 + 2e-9 + Constants.TINY) (by intro h; linarith) (by intro h; linarith [h.2])
+    have e4 := rej (0 + 2e-9 - Constants.TINY) (by intro h; linarith) (by intro h; linarith [h.2])
+    simp only [setValueAuto, e1, hc, hlim, e2, e3]
+    exact e4
+
 /-! ## non-vacuity of the hypotheses -/
 
 /-- `]0,1[` with the default precision is wide -/
@@ -734,7 +900,7 @@ example : (Interval.make (.fin 0) (.fin 1) false false Constants.TINY : Interval
   refine ⟨by positivity, ?_⟩
   rw [← EReal.coe_add, EReal.coe_lt_coe_iff]; norm_num
 
-/-- a parameter satisfying every hypothesis of `auto_nearest`, with a rejected request -/
+/-- a parameter satisfying every hypothesis of `auto_nearest_partial` and of `auto_lands` (precision 0), with a rejected request -/
 example : ∃ (p : Param ℝ) (c : Interval ℝ), p.constraint = some c ∧ 0 ≤ p.precision ∧ c.wide = true ∧ p.Inv ∧
     c.isCorrect 7 = false := by
   refine ⟨⟨1, 0, some (Interval.make (.fin 0) (.fin 2) true true 0), true⟩, _, rfl, le_refl _, ?_, ?_, ?_⟩
